@@ -17,9 +17,23 @@ from harness.lib import common
 
 PROP = 'C08'
 PROP_FILE = 'Props/C08.v'
-THEOREMS = ['C08_segmentation_independent', 'C08_connection_state_independent']
-TRUSTED = []
-ASSUMPTIONS = []
+THEOREMS = ['C08_segmentation_independent', 'C08_connection_state_independent', 'C08_matches_reference',
+            'C08_lockstep', 'C08_truncated_is_error']
+TRUSTED = [
+    'hand-written model coq/Model/{PyText,Chunked,HttpMsg}.v + coq/Lib/Conn.v (asyncio.StreamReader.read/readline, 64 KiB line limit) of '
+    'wpull/protocol/http/{stream,chunked,request,util}.py, wpull/namevalue.py, wpull/network/connection.py: tied to the code by the '
+    'vm_compute correspondence of this check (every generated (stream, segmentation) pair, all observables incl. connection state and notified bytes)',
+    'concrete Gallina models of str.strip/title/lower, bytes.strip, int(text, 10/16): compared with the running interpreter on all 256 latin-1 '
+    'characters and on sampled int() inputs in every run',
+    'the reference coq/Spec/HttpFraming.v is independent of the reader for FRAMING; the meaning of a header/trailer block (status line, '
+    'name -> first value map) is shared with the model (response_parse, fields_parse)',
+    'harness/fakes/conn.py scripted StreamReader (segments handed over exactly when the reader would block)',
+]
+ASSUMPTIONS = [
+    'theorems quantify over every zlib machine (zst, zinit, zstep, zeof, zfl): no zlib law is assumed for C08',
+    'wf_response: header lines total <= 32768 bytes, chunk-size and trailer lines <= 65536 bytes (wpull caps), Content-Length <= 4300 digits, '
+    'Transfer-Encoding exactly "chunked" or absent',
+]
 
 ERRMAP = {'ProtocolError': 'ProtocolErr', 'NetworkError': 'NetworkErr', 'ValueError': 'ValueErr'}
 EMPTY_TAB = '{| zt_rows := []; zt_out := [] |}'
@@ -356,7 +370,7 @@ def run_impl(cases, extra=None, shard=250):
     payloads = [{'cases': c} for c in chunks]
     if extra:
         payloads[0].update(extra)
-    outs = common.run_impl_sharded('c08_impl.py', payloads)
+    outs = common.run_impl_sharded('c08_impl.py', payloads, par=6)
     res = []
     for o in outs:
         res += o['results']
@@ -371,7 +385,7 @@ Open Scope N_scope.
 Inductive expected :=
 | XErr (e : err)
 | XOk (v : list N) (status : N) (reason : list N) (fs : list (list N * list N)) (body : list N)
-      (cl : bool) (rest : nat) (eof : bool) (rc : list N).
+      (cl : bool) (rest : N) (eof : bool) (rc : list N).
 Definition err_eqb (a b : err) : bool :=
   match a, b with
   | ProtocolErr, ProtocolErr | NetworkErr, NetworkErr | ValueErr, ValueErr | OutOfFuel, OutOfFuel => true
@@ -384,14 +398,15 @@ Fixpoint pairs_eqb (a b : list (list N * list N)) : bool :=
   | _, _ => false
   end.
 Definition mrun t31 t15 traw tbl P bs :=
-  run tst (tab_init t31 t15 traw) tab_step t_eof (fun _ => []) (list_oracle tbl) P bs.
+  run tst (tab_init t31 t15 traw) tab_step t_eof (fun _ => [])
+      (list_oracle (map (fun ab : N * N => (N.to_nat (fst ab), N.to_nat (snd ab))) tbl)) P bs.
 Definition check (r : res (response * list N)) (x : expected) : bool :=
   match r, x with
   | Err e, XErr e' => err_eqb e e'
   | Ok (rp, body) s, XOk v st rs fs b cl rest eof rc =>
       PyText.list_eqb (r_version rp) v && (r_status rp =? st) && PyText.list_eqb (r_reason rp) rs
       && pairs_eqb (fget_all (r_fields rp)) fs && PyText.list_eqb body b && Bool.eqb (closed s) cl
-      && (cl || (Nat.eqb (List.length (pending (cn s))) rest && Bool.eqb (eof_hit (cn s)) eof))
+      && (cl || (N.eqb (N.of_nat (List.length (pending (cn s)))) rest && Bool.eqb (eof_hit (cn s)) eof))
       && PyText.list_eqb (recd s) rc
   | _, _ => false
   end.
@@ -419,10 +434,36 @@ def coq_run(m, ex, total=None):
     # oracle table: (pending length before the read, size delivered)
     tbl = []
     for before, size in ex['reads']:
-        tbl.append('(%d%%nat, %d%%nat)' % (total - before, size))
+        tbl.append('(%d, %d)' % (total - before, size))
     t = ex.get('tables')
     tabs = ' '.join(_coq_tab(t[k]) for k in ('W31', 'W15', 'WRaw')) if t else 'E E E'
     return 'mrun %s [%s] %s (unhex "%s")' % (tabs, '; '.join(tbl), coq_params(m['params']), data.hex())
+
+
+def _h2(cp6):
+    """hex6 code point string -> 2-hex-digit latin-1 string (None if a code point >= 256 appears)"""
+    out = []
+    for i in range(0, len(cp6), 6):
+        if cp6[i:i + 4] != '0000':
+            return None
+        out.append(cp6[i + 4:i + 6])
+    return ''.join(out)
+
+
+def _lit(hx6):
+    h = _h2(hx6)
+    return 'unhex6 "%s"' % hx6 if h is None else 'unhex "%s"' % h
+
+
+def _sub(data, hx):
+    """a byte string that is a slice of the message is written as that slice (keeps the
+    generated Coq small: string literals dominate coqc time); exact equality is still what is compared"""
+    b = bytes.fromhex(hx)
+    if len(b) >= 12:
+        i = data.find(b)
+        if i >= 0:
+            return '(firstn %d (skipn %d (unhex "%s")))' % (len(b), i, data.hex())
+    return '(unhex "%s")' % hx
 
 
 def coq_expected(m, ex):
@@ -431,20 +472,38 @@ def coq_expected(m, ex):
         if e is None:
             return None
         return '(XErr %s)' % e
-    fs = '; '.join('(unhex6 "%s", unhex6 "%s")' % (n, v) for n, v in ex['fields'])
+    fs = '; '.join('(%s, %s)' % (_lit(n), _lit(v)) for n, v in ex['fields'])
     rest = len(m['bytes']) - ex['consumed']
-    return '(XOk (unhex6 "%s") %d (unhex6 "%s") [%s] (unhex "%s") %s %d%%nat %s (unhex "%s"))' % (
-        ex['version'], ex['status'], ex['reason'], fs, ex['body'], _b(ex['closed']), rest, _b(ex['eof_fed']), ex['recd'])
+    return '(XOk (%s) %d (%s) [%s] %s %s %d %s %s)' % (
+        _lit(ex['version']), ex['status'], _lit(ex['reason']), fs, _sub(m['bytes'], ex['body']), _b(ex['closed']), rest,
+        _b(ex['eof_fed']), _sub(m['bytes'], ex['recd']))
 
 
-def model_check(items, per=120):
+_LIT = __import__('re').compile(r'unhex "([0-9a-f]{24,})"')
+
+
+def intern_literals(texts):
+    """share long hex literals between the cases of one generated file"""
+    names = {}
+
+    def rep(mo):
+        h = mo.group(1)
+        if h not in names:
+            names[h] = 'lit%d' % len(names)
+        return names[h]
+    out = [_LIT.sub(rep, t) for t in texts]
+    defs = ''.join('Definition %s := unhex "%s".\n' % (n, h) for h, n in names.items())
+    return defs, out
+
+
+def model_check(items, per=160):
     """items: list of (run_text, expected_text); returns list of failing indices and coq errors"""
     bodies = []
     for i in range(0, len(items), per):
-        checks = ['check (%s) %s' % (rt, xt) for rt, xt in items[i:i + per]]
-        bodies.append(HEADER + 'Definition checks : list bool := [\n  ' + ';\n  '.join(checks) +
+        defs, checks = intern_literals(['check (%s) %s' % (rt, xt) for rt, xt in items[i:i + per]])
+        bodies.append(HEADER + defs + 'Definition checks : list bool := [\n  ' + ';\n  '.join(checks) +
                       '].\nEval vm_compute in (failing checks).\n')
-    outs = common.coq_eval_many(bodies)
+    outs = common.coq_eval_many(bodies, par=6)
     failing, errors = [], []
     for bi, (rc, out) in enumerate(outs):
         fails = common.parse_vm_list(out) if rc == 0 else None
@@ -578,7 +637,7 @@ def build(ctx, r, n_msgs, n_segs, n_trunc):
 
 def correspondence(ctx):
     r = common.rng('c08')
-    n_msgs = 900 if not ctx.thorough else 30000
+    n_msgs = 420 if not ctx.thorough else 30000
     msgs, pairs = build(ctx, r, n_msgs, 4, 1)
     ints = int_samples(r, 300)
     results, first = run_impl([impl_case(msgs[mi], cuts) for mi, cuts in pairs], extra={'latin1': True, 'ints': ints})
@@ -677,6 +736,15 @@ def replay(ctx, data):
     return bool(property_violations(m, runs))
 
 
-LEVEL_TEXT = ''
-LEVEL_NOTE = ''
+LEVEL_TEXT = ('proof: for ALL byte streams, ALL segmentation oracles and all zlib machines the observable result of one exchange is '
+              'segmentation independent (C08_segmentation_independent, C08_connection_state_independent); for every message of the declarative '
+              'RFC 7230 reference (interim 1xx heads; no body for HEAD/1xx/204/304; chunked with extensions and trailers before Content-Length before '
+              'read-until-close) followed by any surplus, the reader returns the reference status/fields/payload with the content coding removed '
+              '(the C19 reference), consumes and reports exactly the message bytes, leaves exactly the surplus on an open connection or discards it with '
+              'the connection (C08_matches_reference); lockstep sequences on a persistent connection return each message from its first byte '
+              '(C08_lockstep); every cut before the payload is complete is ProtocolError/NetworkError (C08_truncated_is_error). '
+              'Correspondence only: header-block semantics (obs-fold, field name case, duplicates) and the python primitives.')
+LEVEL_NOTE = ('Not covered by wf_response (model behaviour still segmentation independent and in correspondence): Transfer-Encoding lists such as '
+              '"gzip, chunked", invalid Content-Length (wpull reads until close), lines over the caps; a chunked message cut after the last-chunk '
+              'line (only trailers missing) is accepted by wpull; a 64 KiB+ chunk CRLF / trailer line raises a bare ValueError (C09).')
 TECHNIQUE = 'Coq proof over a segmented-connection model with a universally quantified segmentation oracle; vm_compute correspondence with the real readers over a scripted connection'
